@@ -310,6 +310,22 @@ theorem F2_pinned_tilde_collides_with_space :
     bpeDecode idVocab (bpeEncode false idVocab byteSplit [] noAdd [97, 126, 98]) = [97, 126, 98] := by
   decide
 
+/-! ### the vocabulary's merge table and token list are independent: the merge loop's token guard -/
+
+/-- the BPE queue configuration WITHOUT the `vocab.Encode(pair.value) < 0 → skip` guard -/
+def bpeCfgNoGuard (V : Vocab) : Cfg := { bpeCfg V with ok := fun c l r => l ++ r == c.value }
+
+/-- covering vocabulary (every rune is a token) with the merge rule "a b" whose product "ab" is NOT a token -/
+def gapVocab : Vocab := { idVocab with rank := fun l r => if l = [97] ∧ r = [98] then some 0 else none }
+
+theorem bpe_guard_needed_witness :
+    -- with the guard (the code as it is) the rule is skipped and "ab" keeps its two tokens
+    (mergeAll (bpeCfg gapVocab) [97, 98]).map (·.runes) = [[97], [98]] ∧
+    bpeDecode gapVocab (bpeEncode false gapVocab (fun s => [s]) [] noAdd [97, 98]) = [97, 98] ∧
+    -- without it the two parts are fused into a string that has no id and is dropped by the final loop
+    (mergeAll (bpeCfgNoGuard gapVocab) [97, 98]).map (·.runes) = [[97, 98]] ∧
+    ((mergeAll (bpeCfgNoGuard gapVocab) [97, 98]).filterMap fun p => gapVocab.tokId p.runes) = [] := by
+  decide
 /-- **Witness of finding F2b (ids 105/106 are always special).**  In a byte-level vocabulary such as
     llama 3's, `Values[105]` is the one-rune string U+00AC (the remapped byte 0xAC).  Treated as a
     special token, the text `¬` (bytes C2 AC) becomes the single id 105, which decodes to the single
